@@ -11,7 +11,7 @@ import vlib
 
 
 def run(R):
-    pc.run_family(R, "C08", modes=["fw", "mix", "cs", "dnl"], n_quick=480, n_thorough=12000)
+    pc.run_family(R, "C08", modes=["fw", "mix", "cs", "dnl", "loop"], n_quick=480, n_thorough=12000)
     tp = os.path.join(vlib.VERIF, "checks", "C08_tables.py")
     if os.path.exists(tp):
         try:
